@@ -2161,15 +2161,16 @@ class BackendMixin(PasswordHash):
         """
         helper for subclasses to create stub methods which auto-load backend.
         """
-        if cls.__backend:
-            raise AssertionError(
-                f"{cls.name}: _finalize_backend({cls.__backend!r}) failed to replace lazy loader"
-            )
-        cls.set_backend()
-        if not cls.__backend:
-            raise AssertionError(
-                f"{cls.name}: set_backend() failed to load a default backend"
-            )
+        # NOTE: another thread may have loaded the backend between the moment our caller
+        #       dispatched to its stub method and now; in that case there is nothing left
+        #       to do, the caller re-dispatches to the method installed by that thread.
+        with _backend_lock:
+            if not cls.__backend:
+                cls.set_backend()
+            if not cls.__backend:
+                raise AssertionError(
+                    f"{cls.name}: set_backend() failed to load a default backend"
+                )
 
 
 class SubclassBackendMixin(BackendMixin):
